@@ -128,6 +128,17 @@ def end_to_end(chk, fam, text, nmodes, symm, variant, quads, ns, taus, negl_of=N
                 allowed = NOISE * (1.0 + abs(vo) + abssum + beta * abs(oA * oB) + (beta if n == 0 else 0.0)) + drop + merge + negl
                 if not (abs(vi - vo) <= allowed):
                     fails.append((q, "value", "mode=%d n=%d" % (mode, n), vi, vo, allowed))
+        # copies (h_ed prints SUSCCOPY: a Susceptibility copy-constructed after subtractDisconnected, same layout as SUSC): a
+        # copy handed around by value (std::vector reallocation, pass by value) must evaluate to what the original does
+        SC = {(tuple(int(x) for x in t[1:5]), int(t[5])): t for t in r.get("impl", "SUSCCOPY")}
+        for mode in (0, 1, 2, 3):
+            tc = SC.get((q, mode))
+            if tc is None:
+                continue
+            for p, n in enumerate(ns):
+                vc = L.cplx(tc, 8 + 3 * p)
+                if vc != vals[(mode, n)] and not (abs(vc - vals[(mode, n)]) <= 1e-14 * (1 + abs(vals[(mode, n)]))):
+                    fails.append((q, "copy", "mode=%d n=%d (value read from a copy of the object)" % (mode, n), vc, vals[(mode, n)], 1e-14))
         # (C3) relations on the library's own numbers
         for n in ns:
             for mode in (2, 3):
@@ -258,6 +269,7 @@ def report(chk, fam, text, nmodes, symm, variant, fail, ns, taus):
         "subtract": "subtractDisconnected changes chi (A=c^+_%d c_%d, B=c^+_%d c_%d) at %s by %s, expected %s (allowed %.1e)",
         "subtract-tau": "subtractDisconnected changes chi(tau) (A=c^+_%d c_%d, B=c^+_%d c_%d) at %s by %s, expected %s (allowed %.1e)",
         "average": "<A>,<B> (A=c^+_%d c_%d, B=c^+_%d c_%d) %s: library %s, definition %s (allowed %.1e)",
+        "copy": "a copy of the Susceptibility object (A=c^+_%d c_%d, B=c^+_%d c_%d) evaluates differently from the original at %s: copy %s, original %s (allowed %.1e)",
     }[kind] % (q + (pt, a, b, allowed))
     chk.violation(key, what, {"harness": "h_ed", "variant": variant, "scenario": text, "query": "susc %d %d %d %d" % q, "point": pt,
                               "expected": str(b), "observed": str(a), "kind": kind})
